@@ -33,6 +33,11 @@ type Variant struct {
 	// nothing, a negative step walks from start down to end inclusively. It is
 	// only used to recognise that finding, never to accept a result.
 	Inclusive bool
+	// NegStartEmpty is NOT a reading of the statement either: it is what Get,
+	// First, Has and GetNodes implement for a negative-step slice whose start
+	// lies at or beyond the end of the array (known finding C05): nothing is
+	// selected. Only used to recognise that finding.
+	NegStartEmpty bool
 }
 
 // Variants lists all readings.
@@ -309,6 +314,9 @@ func SliceIndexes(s []int, n int, v Variant) []int {
 			out = append(out, i)
 		}
 		return out
+	}
+	if v.NegStartEmpty && st < 0 && n <= start {
+		return nil
 	}
 	if st < 0 && v.NegDefaults {
 		if !hasStart {
